@@ -364,11 +364,12 @@ type State struct {
 	writes map[string]bool // components written on this path (for frame.modifies)
 	names  map[string]Val  // "<func>.<var>" -> latest value seen in a DebugRef (source-level names for invariants)
 	ghost  map[string]Sc   // ghost variables of the function under verification
+	wcount map[string]int  // per table: number of write operations so far on this path (iterator validity)
 }
 
 func NewState() *State {
 	return &State{regs: map[ssa.Value]Val{}, mem: map[*Loc]Val{}, arrs: map[*Arr]*ArrContent{}, comps: map[string]string{},
-		iters: map[*IterObj]*IterState{}, writes: map[string]bool{}, names: map[string]Val{}, ghost: map[string]Sc{}}
+		iters: map[*IterObj]*IterState{}, writes: map[string]bool{}, names: map[string]Val{}, ghost: map[string]Sc{}, wcount: map[string]int{}}
 }
 
 func (st *State) Clone() *State {
@@ -377,6 +378,10 @@ func (st *State) Clone() *State {
 		iters: make(map[*IterObj]*IterState, len(st.iters)), writes: make(map[string]bool, len(st.writes)), names: make(map[string]Val, len(st.names))}
 	for k, v := range st.names {
 		n.names[k] = v
+	}
+	n.wcount = make(map[string]int, len(st.wcount))
+	for k, v := range st.wcount {
+		n.wcount[k] = v
 	}
 	n.ghost = make(map[string]Sc, len(st.ghost))
 	for k, v := range st.ghost {
@@ -434,6 +439,9 @@ func (s *Session) setComp(st *State, name, term string) {
 // havocComp replaces a component by a fresh array.
 func (s *Session) havocComp(st *State, name string) {
 	c := s.Spec.Comps[name]
+	if c.Table != "" {
+		st.wcount[c.Table]++
+	}
 	t := s.declare(s.fresh(name), c.Sort())
 	s.setComp(st, name, t)
 }
